@@ -322,7 +322,9 @@ def generate(run_seed, tier):
     nbuild = wl.randint(4, 24)
     use_rate = wl.choice([0.15, 0.35, 0.55])
     texts = {}
-    words = wl.sample(WORDS, 8) + [wl.choice(g.pal) for _ in range(4)]
+    # probe texts stay clear of the code points that only the Unicode-aware \d and \s add: whether such a shorthand is
+    # emitted can depend on set order (known finding C20-known-shorthand-emission), and C06/C07 leave them unspecified
+    words = wl.sample(WORDS, 8) + [c for c in (wl.choice(g.pal) for _ in range(4)) if not cm.in_zone(c)]
     for t in range(wl.randint(3, 5)):
         texts["t%d" % t] = "".join(wl.choice(words + [" ", "\n", "1", "ab"]) for _ in range(wl.randint(0, 10)))
     for tid in sorted(texts):
@@ -631,6 +633,8 @@ def _run(plan, inst, log, label):
         check_fingerprint(pid, "the whole history")
     # oracle 2: rebuild, tree-expanded, reverse order, fresh module instance, never compiled
     fresh = loader.fresh_instance()
+    if label != "real":
+        simset.install(fresh.classes)           # same set-order configuration as the history it is compared with
     final = {}
     for pid in sorted(recs, reverse=True):
         exp = recipes.expand(recs[pid], recs)
@@ -776,7 +780,7 @@ EVIDENCE = {
     "measure": "(builder, spelling, sharing pattern {fresh, reused, same-object-twice}, operand compiled?, operand iterated?, "
                "outcome class) plus (use op, compiled?, iterated?)",
     "probes": ["drops", "aliases", "shortcut_self", "same_object_twice", "operand_compiled", "operand_iterated", "rebuilt",
-               "build_exceptions", "snapshots_checked", "shim_configs", "class_sets_compared"],
+               "build_exceptions", "snapshots_checked", "shim_configs"],
     "fault_kinds": [],
     "components": {
         "real": ["all of pregex", "re", "fresh module instances (every pregex module re-executed) for the rebuild oracle"],
